@@ -135,3 +135,17 @@ def narrow(x, v, lo, hi):
         x.assume(And(v >= lo, v <= hi))
         return core.mkint(v.e, max(v.lo, lo), min(v.hi, hi))
     return v
+
+
+def patch(x, owner, attr, repl):
+    """Replace owner.attr by repl for the duration of the scenario: a call
+    stub in symbolic mode (the instrumented code routes every call through
+    the runtime), a monkeypatch restored afterwards in native mode."""
+    real = getattr(owner, attr)
+    if x.symbolic:
+        from . import rt
+        rt.stub(real, repl)
+    else:
+        setattr(owner, attr, repl)
+        x.cleanups.append(lambda: setattr(owner, attr, real))
+    return real
